@@ -49,9 +49,11 @@ def agrees_through_first_divergence(real, spec, model):
             # the model stops at a call whose outcome it does not describe (OConfused: the 78 fast path fell
             # through to the miss path after switching the index layout): everything printed before that
             # call must match, and that call must not come after the first visible divergence
-            if len(mt) <= j and mt == rt[:len(mt)]:
-                return None
-            return f"input {k}: model stops (layout confusion) after tags {mt}, observed {rt[:j + 1]}"
+            if len(mt) <= j:
+                if mt == rt[:len(mt)]:
+                    return None
+                return f"input {k}: model stops (layout confusion) after tags {mt}, observed {rt[:j + 1]}"
+            # the confusion comes after the first wrong callee: the ordinary rule applies
         upto = min(j + 1, len(rt))
         if mt[:upto] != rt[:upto]:
             return f"input {k}: model tags {mt[:upto]} != observed tags {rt[:upto]} (through the first wrong callee)"
